@@ -297,6 +297,8 @@ class Ctx:
 
     def __init__(self, ex, st, old_st, params, result=None, k=None, it=None, side=None, entry=None):
         self.ex, self.st, self.old_st, self.params = ex, st, old_st, params
+        stack = getattr(ex, 'loop_stack', None) or []
+        self.outer_k = stack[-1] if stack else None
         self._result, self.k, self._it = result, k, it
         self.side = side if side is not None else _Side()
         self.entry_st = entry
